@@ -61,8 +61,8 @@ theorem rel_two (c : Core F P Err) (hc : CoreOK c) (h0 h : Heap F P) (hr : Rel c
   · rw [initAt_fst]; simp only [Heap.set]; simpa using hd
 
 theorem rel_stepNoHop (c : Core F P Err) (hc : CoreOK c) (h0 h : Heap F P) (hr : Rel c h0 h)
-    (s d : Nat) (x y : F) :
-    Rel c h0 (stepNoHop c h s d x y).1 ∧ (stepNoHop c h s d x y).2 = (stepNoHop c h0 s d x y).2 := by
+    (s d : Nat) (x y z : F) :
+    Rel c h0 (stepNoHop c h s d x y z).1 ∧ (stepNoHop c h s d x y z).2 = (stepNoHop c h0 s d x y z).2 := by
   have e1 : (initAt c h s).2 = (initAt c h0 s).2 := by
     simp [initAt_snd, (rel_cell c hc h0 h hr s).2]
   have r1 := rel_initAt c hc h0 h hr s
@@ -101,25 +101,21 @@ theorem rel_step (c : Core F P Err) (hc : CoreOK c) (wgs : Nat) (h0 h : Heap F P
     Rel c h0 (step c wgs h tr x y).1 ∧ (step c wgs h tr x y).2.1 = tr ∧
       (step c wgs h tr x y).2.2 = (step c wgs h0 tr x y).2.2 := by
   unfold step
-  rw [rel_needsHop c h0 h hr tr.src tr.dst, rel_needsHop c h0 h hr tr.src wgs]
+  rw [rel_needsHop c h0 h hr tr.src tr.dst]
   by_cases hh : needsHop h0 tr.src tr.dst = true
   · simp only [hh, if_true]
-    by_cases hw : needsHop h0 tr.src wgs = true
-    · simp [hw, hr]
-    · simp only [hw]
-      obtain ⟨ra, ea⟩ := rel_stepNoHop c hc h0 h hr tr.src wgs x y
-      obtain ⟨ra', _⟩ := rel_stepNoHop c hc h0 h0 (Rel.refl c h0) tr.src wgs x y
-      simp only [Bool.false_eq_true, if_false]
-      rw [ea]
-      cases hres : (stepNoHop c h0 tr.src wgs x y).2 with
-      | ok a b =>
-        obtain ⟨rb, eb⟩ := rel_stepNoHop c hc h0 _ ra wgs tr.dst a b
-        obtain ⟨_, eb'⟩ := rel_stepNoHop c hc h0 _ ra' wgs tr.dst a b
-        simp [rb, eb, eb']
-      | err e => simp [ra]
-      | panic f => simp [ra]
+    obtain ⟨ra, ea⟩ := rel_stepNoHop c hc h0 h hr tr.src wgs x y FOps.zero
+    obtain ⟨ra', _⟩ := rel_stepNoHop c hc h0 h0 (Rel.refl c h0) tr.src wgs x y FOps.zero
+    rw [ea]
+    cases hres : (stepNoHop c h0 tr.src wgs x y FOps.zero).2 with
+    | ok a b z =>
+      obtain ⟨rb, eb⟩ := rel_stepNoHop c hc h0 _ ra wgs tr.dst a b z
+      obtain ⟨_, eb'⟩ := rel_stepNoHop c hc h0 _ ra' wgs tr.dst a b z
+      simp [rb, eb, eb']
+    | err e => simp [ra]
+    | panic f => simp [ra]
   · simp only [hh]
-    obtain ⟨ra, ea⟩ := rel_stepNoHop c hc h0 h hr tr.src tr.dst x y
+    obtain ⟨ra, ea⟩ := rel_stepNoHop c hc h0 h hr tr.src tr.dst x y FOps.zero
     simp [ra, ea]
 
 theorem pool_update_same (pool : Nat → Tr) (k : Nat) : (fun j => if j = k then pool k else pool j) = pool := by
@@ -160,8 +156,8 @@ theorem initAt_settled (c : Core F P Err) (h : Heap F P) (i : Nat) (hs : Settled
   · subst hj; simp only [if_true]; unfold Settled at hs; rw [hs]
   · simp [hj]
 
-theorem stepNoHop_settled (c : Core F P Err) (h : Heap F P) (s d : Nat) (x y : F)
-    (hs : Settled c h s) (hd : Settled c h d) : (stepNoHop c h s d x y).1 = h := by
+theorem stepNoHop_settled (c : Core F P Err) (h : Heap F P) (s d : Nat) (x y z : F)
+    (hs : Settled c h s) (hd : Settled c h d) : (stepNoHop c h s d x y z).1 = h := by
   unfold stepNoHop
   simp only [initAt_settled c h s hs]
   cases (initAt c h s).2 with
